@@ -146,7 +146,7 @@ fn check_model(rng: &mut Rng, rep: &mut Report, desc: &str, b: u32, p: u32, m: &
     }
     let distinct = t.iter().map(|e| e.0).collect::<std::collections::HashSet<_>>().len() == t.len();
     // encoder view
-    if m.enc(0).is_some() && distinct {
+    if guarded(|| m.enc(0).is_some()).unwrap_or(true) && distinct {
         for e in t.iter() {
             if t.len() > 64 && !rng.chance(1, 4) {
                 continue;
@@ -180,7 +180,7 @@ fn check_model(rng: &mut Rng, rep: &mut Report, desc: &str, b: u32, p: u32, m: &
         }
     }
     // decoder view
-    if m.dec(0).is_some() {
+    if guarded(|| m.dec(0).is_some()).unwrap_or(true) {
         for q in sample_quantiles(rng, p, &t) {
             rep.eval(prop);
             let r = match guarded(|| m.dec(q).unwrap()) {
@@ -197,7 +197,7 @@ fn check_model(rng: &mut Rng, rep: &mut Report, desc: &str, b: u32, p: u32, m: &
             }
         }
     }
-    if let Some(n) = m.support() {
+    if let Ok(Some(n)) = guarded(|| m.support()) {
         rep.eval("C05");
         let d = t.iter().map(|e| e.0).collect::<std::collections::HashSet<_>>().len();
         let want = if m.kind() == "ncenc" { d } else { t.len() };
@@ -274,9 +274,6 @@ fn oracle_valid(rng: &mut Rng, rep: &mut Report, b: u32, p: u32, kind: &str, pro
         Ok(Some(Built::Ok(m))) => {
             let want = expected_table(&labels, probs);
             let t = check_model(rng, rep, &desc, b, p, m.as_ref(), Some(&want), "C03");
-            if m.table().is_none() {
-                // encoder-only: `check_model` compared it with `want` already
-            }
             if let Some(t) = t {
                 if t[..] != want[..] {
                     cat_fail(rep, "C03", format!("{} | table => {} expected {}", desc, show_table(&t), show_table(&want)));
@@ -312,6 +309,12 @@ fn oracle_arbitrary(rng: &mut Rng, rep: &mut Report, b: u32, p: u32, c: &Ctor) {
                 }
                 _ => None,
             };
+            if let Ctor::NcEnc { syms, .. } = c {
+                let d = syms.iter().collect::<std::collections::HashSet<_>>().len();
+                if d != syms.len() {
+                    cat_fail(rep, "C19", format!("{} => accepted although a symbol occurs twice (its second interval is lost)", desc));
+                }
+            }
             match check_model(rng, rep, &desc, b, p, m.as_ref(), expect.as_deref(), "C19") {
                 Some(t) => {
                     if t.len() < 2 {
@@ -357,12 +360,12 @@ fn oracle_uniform(rng: &mut Rng, rep: &mut Report, b: u32, p: u32, range: usize,
                 for &s in &probe {
                     let want_c = s as u128 * ppb;
                     let want_p = if s == range - 1 { total - want_c } else { ppb };
-                    let r = m.enc(s).unwrap();
+                    let r = guarded(|| m.enc(s).unwrap()).unwrap_or(None);
                     if r != Some((want_c, want_p)) {
                         cat_fail(rep, "C03", format!("{} | enc {:x} => {:?} expected {:x}:{:x}", desc, s, r, want_c, want_p));
                     }
                     for q in [want_c, want_c + want_p - 1] {
-                        let d = m.dec(q).unwrap();
+                        let d = guarded(|| m.dec(q).unwrap()).unwrap_or((usize::MAX, 0, 0));
                         if d != (s, want_c, want_p) {
                             cat_fail(rep, "C03", format!("{} | dec {:x} => {} expected {:x}:{:x}:{:x}", desc, q, show_triple(&d), s, want_c, want_p));
                         }
@@ -382,7 +385,7 @@ fn oracle_uniform(rng: &mut Rng, rep: &mut Report, b: u32, p: u32, range: usize,
                     continue;
                 }
                 rep.eval("C09");
-                let r = m.enc(s).unwrap();
+                let r = guarded(|| m.enc(s).unwrap()).unwrap_or(Some((u128::MAX, 0)));
                 if r.is_some() {
                     cat_fail(rep, "C09", format!("{} | enc {:x} => {:?} for a symbol outside 0..range", desc, s, r));
                     break;
